@@ -65,8 +65,23 @@ fn strategy_of(n: u32) -> zs::Strategy {
 }
 
 /// Compress with the reference compressor. Err = the configuration was refused (not a finding).
+thread_local! {
+    // contexts are reused per thread (reset between uses): creating them afresh for every case
+    // costs far more than the compression itself
+    static CCTX: std::cell::RefCell<zs::CCtx<'static>> = std::cell::RefCell::new(zs::CCtx::create());
+    static DCTX: std::cell::RefCell<zs::DCtx<'static>> = std::cell::RefCell::new(zs::DCtx::create());
+}
+
 pub fn compress(data: &[u8], cfg: &RefCfg, dict: Option<&[u8]>) -> Result<Vec<u8>, String> {
-    let mut c = zs::CCtx::create();
+    CCTX.with(|c| {
+        let mut c = c.borrow_mut();
+        let r = compress_with(&mut c, data, cfg, dict);
+        let _ = c.reset(zs::ResetDirective::SessionAndParameters);
+        r
+    })
+}
+
+fn compress_with(c: &mut zs::CCtx<'static>, data: &[u8], cfg: &RefCfg, dict: Option<&[u8]>) -> Result<Vec<u8>, String> {
     let e = |r: zs::SafeResult| r.map_err(|c| err_name(c));
     e(c.set_parameter(zs::CParameter::CompressionLevel(cfg.level)))?;
     if cfg.window_log != 0 {
@@ -117,6 +132,8 @@ pub fn compress(data: &[u8], cfg: &RefCfg, dict: Option<&[u8]>) -> Result<Vec<u8
         return Ok(out);
     }
     // streaming with explicit chunking; the size is not pledged -> no content size field
+    // (a size hint keeps the reference's tables proportional to the input)
+    e(c.set_parameter(zs::CParameter::SrcSizeHint(data.len().min(i32::MAX as usize) as u32)))?;
     let mut cuts: Vec<(usize, u8)> = cfg
         .chunks
         .iter()
@@ -151,17 +168,25 @@ pub fn compress(data: &[u8], cfg: &RefCfg, dict: Option<&[u8]>) -> Result<Vec<u8
         } else {
             sys::ZSTD_EndDirective::ZSTD_e_continue
         };
-        feed(&mut c, &data[pos..cut], dir, &mut out)?;
+        feed(c, &data[pos..cut], dir, &mut out)?;
         pos = cut;
     }
-    feed(&mut c, &data[pos..], sys::ZSTD_EndDirective::ZSTD_e_end, &mut out)?;
+    feed(c, &data[pos..], sys::ZSTD_EndDirective::ZSTD_e_end, &mut out)?;
     Ok(out)
 }
 
 /// Decode one or more concatenated frames with the reference decoder (streaming API, so frames
 /// without content size work). `max_out` caps the output.
 pub fn decompress(src: &[u8], dict: Option<&[u8]>, max_out: usize) -> Result<Vec<u8>, String> {
-    let mut d = zs::DCtx::create();
+    DCTX.with(|d| {
+        let mut d = d.borrow_mut();
+        let r = decompress_with(&mut d, src, dict, max_out);
+        let _ = d.reset(zs::ResetDirective::SessionAndParameters);
+        r
+    })
+}
+
+fn decompress_with(d: &mut zs::DCtx<'static>, src: &[u8], dict: Option<&[u8]>, max_out: usize) -> Result<Vec<u8>, String> {
     d.set_parameter(zs::DParameter::WindowLogMax(31))
         .map_err(err_name)?;
     if let Some(di) = dict {
